@@ -127,6 +127,24 @@ func evalCap(cs CaseCap) Result {
 				cs.Cfg.Kind, cs.Cfg.HdrCap, cs.Cfg.CtCap, cs.Cfg.PCap, diffSnap(s1, s2), cs.Buf).with(true, classes...)
 		}
 		truncated := false
+		// the caller's own arrays are the ones that get filled (built-in 10-element arrays when none are given)
+		if small.msg != nil {
+			hd, ct := small.msg.HL.Hdrs, small.msg.PV.Contacts.Vals
+			wantH, wantC := 10, 10
+			if cs.Cfg.HdrCap >= 0 {
+				wantH = cs.Cfg.HdrCap
+			}
+			if cs.Cfg.CtCap >= 0 {
+				wantC = cs.Cfg.CtCap
+			}
+			if len(hd) != wantH || len(ct) != wantC {
+				return viol("msg: header / contact arrays in use have %d / %d elements, the caller supplied capacities %d / %d (-1 = built-in 10)\ninput=%s",
+					len(hd), len(ct), cs.Cfg.HdrCap, cs.Cfg.CtCap, cs.Buf)
+			}
+			if (cs.Cfg.HdrCap > 0 && &hd[0] != &small.callerHdrs[0]) || (cs.Cfg.CtCap > 0 && &ct[0] != &small.callerCts[0]) {
+				return viol("msg: the parser does not fill the arrays the caller supplied (capacities %d / %d)\ninput=%s", cs.Cfg.HdrCap, cs.Cfg.CtCap, cs.Buf)
+			}
+		}
 		// stored elements are a prefix; 'more' indicators
 		hs, hb := small.hl, big.hl
 		ps, pb := small.pv, big.pv
